@@ -27,6 +27,9 @@
 //! thorough tier: generic depth 2 (every cell as first frame, merged by state fingerprint).
 //!
 //! Lenient readings (the statement leaves room; the oracle demands no more than is written):
+//!  * an 802.15.4 data frame without any destination addressing is, per IEEE 802.15.4, for the
+//!    coordinator of its SOURCE PAN: with a foreign source PAN it is "for another PAN" (R1); with
+//!    our own PAN as source PAN it is recorded only (`observations.lowpan_no_dst_addressing_*`).
 //!  * "802.15.4 frames for another PAN" is the only 802.15.4 link-layer clause of the statement:
 //!    a frame for another station's extended address inside our PAN is NOT judged by R1 (radios
 //!    normally filter it in hardware); such cells are executed and counted under
@@ -40,6 +43,8 @@
 //!    interface; `udp::Socket::accepts` does this on purpose). TCP and ICMP(Udp endpoint)
 //!    address-bound sockets are judged strictly (destination == bound address), which is also
 //!    what the stack implements.
+//!  * R2: a UDP socket that was never bound, or was bound and closed again, has no endpoint, so
+//!    ANY change of its image is a violation (destination port 0 is part of the port dimension).
 //!  * R2 for the DNS socket: "bound endpoint" = the local port of the pending query.
 //!  * R3 "sent to a broadcast or multicast destination" is read at the IP layer only: a unicast
 //!    IP packet inside a broadcast/multicast link-layer frame is not judged (counted under
@@ -92,6 +97,8 @@ fn ll_alphabet(m: Med) -> &'static [LlDst] {
             LlDst::PanBcastShortBcast,
             LlDst::PanOtherExtOwn,
             LlDst::PanOtherShortBcast,
+            LlDst::NoDstSrcPanOther,
+            LlDst::NoDstSrcPanOwn,
         ],
     }
 }
@@ -110,17 +117,13 @@ fn valid(c: &Cell) -> bool {
     if c.dst == Dst::Own2 && !two_addrs() {
         return false;
     }
-    if c.med == Med::Lowpan && c.joined {
-        // Not executable on this stack: `join_multicast_group` + `poll` on Medium::Ieee802154
-        // panics (`unreachable!()` in IpPayload::as_sixlowpan_next_header for the MLD report,
-        // src/iface/packet.rs) and keeps panicking on every later poll. Reported to the
-        // coordinator as a defect outside C11; group G is therefore never joined on 802.15.4.
-        return false;
+    if matches!(c.port, Port::DstZero | Port::SrcZero) && !(c.kind == Kind::Udp || c.kind.is_tcp()) {
+        return false; // port 0 exists for UDP and TCP only
     }
     match c.kind {
         Kind::Arp => {
             // ARP: the "IP destination" is the target protocol address; there is no port
-            if c.med != Med::Eth || c.ver != Ver::V4 || !c.port_match {
+            if c.med != Med::Eth || c.ver != Ver::V4 || !c.pm() {
                 return false;
             }
             if !matches!(c.dst, Dst::Own | Dst::Own2 | Dst::OtherOnLink | Dst::OffLink | Dst::SubnetBcast | Dst::Unspec) {
@@ -152,7 +155,7 @@ fn valid(c: &Cell) -> bool {
         return false; // no neighbor cache on Medium::Ip: one base only
     }
     if let Some(f) = &c.auto_first {
-        let fc = Cell { kind: f.kind, ll: f.ll, dst: f.dst, src: f.src, port_match: f.port_match, auto_first: None, ..*c };
+        let fc = Cell { kind: f.kind, ll: f.ll, dst: f.dst, src: f.src, port: f.port, auto_first: None, ..*c };
         if c.prefix != Prefix::NoPrefix || !valid(&fc) {
             return false;
         }
@@ -184,6 +187,12 @@ struct Plan {
     cold_socks: Vec<Sock>,
     /// generic depth 2 (every state-changing cell as first frame)
     auto_d2: bool,
+    ports: Vec<Port>,
+    /// run the "group G not joined" base only for destination class group-g (the only class
+    /// whose treatment depends on the membership) instead of for the whole table
+    unjoined_only_for_group_g: bool,
+    /// destination port 0 for TCP only with the SYN (quick tier)
+    tcp_port0_only_syn: bool,
 }
 
 fn plan(tier: Tier) -> Plan {
@@ -197,6 +206,10 @@ fn plan(tier: Tier) -> Plan {
             d2_joined: vec![true],
             cold_socks: vec![Sock::NoSock, Sock::Std],
             auto_d2: false,
+            // source port 0 ("for completeness") only in the thorough tier
+            ports: vec![Port::Match, Port::NoMatch, Port::DstZero],
+            unjoined_only_for_group_g: true,
+            tcp_port0_only_syn: true,
         },
         Tier::Thorough => Plan {
             socks: Sock::ALL.to_vec(),
@@ -207,6 +220,9 @@ fn plan(tier: Tier) -> Plan {
             d2_joined: vec![false, true],
             cold_socks: Sock::ALL.to_vec(),
             auto_d2: true,
+            ports: Port::ALL.to_vec(),
+            unjoined_only_for_group_g: false,
+            tcp_port0_only_syn: false,
         },
     }
 }
@@ -228,9 +244,16 @@ fn enumerate(p: &Plan) -> Vec<Cell> {
                             for &kind in Kind::ALL {
                                 for &ll in ll_alphabet(med) {
                                     for &dst in Dst::ALL {
+                                        // (depth >= 2 always: the membership only matters for group-g)
+                                        if (p.unjoined_only_for_group_g || prefix != Prefix::NoPrefix) && !joined && dst != Dst::GroupG {
+                                            continue;
+                                        }
                                         for &src in Src::ALL {
-                                            for &port_match in &[true, false] {
-                                                let c = Cell { med, ver, kind, ll, dst, src, port_match, sock, joined, primed, prefix, auto_first: None };
+                                            for &port in &p.ports {
+                                                if p.tcp_port0_only_syn && port == Port::DstZero && kind.is_tcp() && kind != Kind::TcpSyn {
+                                                    continue;
+                                                }
+                                                let c = Cell { med, ver, kind, ll, dst, src, port, sock, joined, primed, prefix, auto_first: None };
                                                 if valid(&c) {
                                                     v.push(c);
                                                 }
@@ -265,6 +288,10 @@ fn ll_wrap(c: &Cell, src: &Addr, dst: &Addr, proto: u8, hop: u8, l4: &[u8]) -> V
             let et = if c.ver == Ver::V4 { 0x0800 } else { 0x86dd };
             pkt::eth(&mac, &PEER_MAC, et, &pkt::ip_packet(src, dst, proto, hop, l4))
         }
+        Med::Lowpan if matches!(c.ll, LlDst::NoDstSrcPanOther | LlDst::NoDstSrcPanOwn) => {
+            let pan = if c.ll == LlDst::NoDstSrcPanOther { PAN_OTHER } else { PAN_OWN };
+            world::lowpan_frame_no_dst(pan, PEER_EXT, src, dst, proto, hop, l4)
+        }
         Med::Lowpan => {
             let (pan, a) = match c.ll {
                 LlDst::PanOwnExtOwn => (PAN_OWN, Ieee802154Address::Extended(MY_EXT)),
@@ -280,6 +307,23 @@ fn ll_wrap(c: &Cell, src: &Addr, dst: &Addr, proto: u8, hop: u8, l4: &[u8]) -> V
     }
 }
 
+/// source port of the cell's UDP/TCP packet
+fn src_port(c: &Cell) -> u16 {
+    match (c.kind, c.port) {
+        (Kind::DnsResp, _) => 53,
+        (_, Port::SrcZero) => 0,
+        _ => PEER_PORT,
+    }
+}
+/// destination port of the cell's TCP segment
+fn tcp_dst_port(c: &Cell) -> u16 {
+    match c.port {
+        Port::Match | Port::SrcZero => TCP_PORT,
+        Port::NoMatch => TCP_PORT + 1,
+        Port::DstZero => 0,
+    }
+}
+
 /// The one frame of the cell. `ack`: acknowledgement number for ACK/data segments (the stack's
 /// ISN+1 when a SYN-ACK was seen in the prefix).
 fn build_frame(c: &Cell, w: &World, ack: u32) -> Vec<u8> {
@@ -287,8 +331,12 @@ fn build_frame(c: &Cell, w: &World, ack: u32) -> Vec<u8> {
     let dst = dst_addr(c.ver, c.dst).unwrap();
     let src = src_addr(c.ver, c.src).unwrap();
     let icmp_proto = if c.ver == Ver::V4 { 1 } else { 58 };
-    let tcp_port = if c.port_match { TCP_PORT } else { TCP_PORT + 1 };
-    let udp_port = if c.port_match { UDP_PORT } else { UDP_PORT + 1 };
+    let (tcp_port, udp_port) = match c.port {
+        Port::Match | Port::SrcZero => (TCP_PORT, UDP_PORT),
+        Port::NoMatch => (TCP_PORT + 1, UDP_PORT + 1),
+        Port::DstZero => (0, 0),
+    };
+    let sport = src_port(c);
     match c.kind {
         Kind::Arp => {
             let (Addr::V4(spa), Addr::V4(tpa)) = (&src, &dst) else { unreachable!() };
@@ -301,7 +349,7 @@ fn build_frame(c: &Cell, w: &World, ack: u32) -> Vec<u8> {
             pkt::eth(&mac, &PEER_MAC, 0x0806, &pkt::arp_request(&PEER_MAC, spa, tpa))
         }
         Kind::Echo => {
-            let ident = if c.port_match { ICMP_IDENT } else { ICMP_IDENT + 1 };
+            let ident = if c.pm() { ICMP_IDENT } else { ICMP_IDENT + 1 };
             ll_wrap(c, &src, &dst, icmp_proto, 64, &pkt::echo_request(&src, &dst, ident, 1, b"ping"))
         }
         Kind::IcmpErr => {
@@ -311,24 +359,24 @@ fn build_frame(c: &Cell, w: &World, ack: u32) -> Vec<u8> {
             let orig = pkt::ip_packet(&emb_src, &a.peer, 17, 63, &u);
             ll_wrap(c, &src, &dst, icmp_proto, 64, &pkt::port_unreachable(&src, &dst, &orig))
         }
-        Kind::Udp => ll_wrap(c, &src, &dst, 17, 64, &pkt::udp(&src, &dst, PEER_PORT, udp_port, b"abcd")),
+        Kind::Udp => ll_wrap(c, &src, &dst, 17, 64, &pkt::udp(&src, &dst, sport, udp_port, b"abcd")),
         Kind::DnsResp => {
-            let port = if c.port_match { w.dns_port } else { w.dns_port.wrapping_add(1) };
+            let port = if c.pm() { w.dns_port } else { w.dns_port.wrapping_add(1) };
             ll_wrap(c, &src, &dst, 17, 64, &pkt::udp(&src, &dst, 53, port, &pkt::dns_nxdomain(w.dns_txid)))
         }
-        Kind::TcpSyn => ll_wrap(c, &src, &dst, 6, 64, &pkt::tcp(&src, &dst, PEER_PORT, tcp_port, PEER_ISN, 0, pkt::TCP_SYN, 1024, &[])),
-        Kind::TcpAck => ll_wrap(c, &src, &dst, 6, 64, &pkt::tcp(&src, &dst, PEER_PORT, tcp_port, PEER_ISN + 1, ack, pkt::TCP_ACK, 1024, &[])),
-        Kind::TcpRst => ll_wrap(c, &src, &dst, 6, 64, &pkt::tcp(&src, &dst, PEER_PORT, tcp_port, PEER_ISN + 1, 0, pkt::TCP_RST, 0, &[])),
+        Kind::TcpSyn => ll_wrap(c, &src, &dst, 6, 64, &pkt::tcp(&src, &dst, sport, tcp_port, PEER_ISN, 0, pkt::TCP_SYN, 1024, &[])),
+        Kind::TcpAck => ll_wrap(c, &src, &dst, 6, 64, &pkt::tcp(&src, &dst, sport, tcp_port, PEER_ISN + 1, ack, pkt::TCP_ACK, 1024, &[])),
+        Kind::TcpRst => ll_wrap(c, &src, &dst, 6, 64, &pkt::tcp(&src, &dst, sport, tcp_port, PEER_ISN + 1, 0, pkt::TCP_RST, 0, &[])),
         Kind::TcpData => ll_wrap(
             c,
             &src,
             &dst,
             6,
             64,
-            &pkt::tcp(&src, &dst, PEER_PORT, tcp_port, PEER_ISN + 1, ack, pkt::TCP_ACK | pkt::TCP_PSH, 1024, b"data"),
+            &pkt::tcp(&src, &dst, sport, tcp_port, PEER_ISN + 1, ack, pkt::TCP_ACK | pkt::TCP_PSH, 1024, b"data"),
         ),
         Kind::Ns => {
-            let target = if c.port_match { &a.my } else { &a.other };
+            let target = if c.pm() { &a.my } else { &a.other };
             let Addr::V6(t) = target else { unreachable!() };
             let sll: &[u8] = if c.med == Med::Lowpan { &PEER_EXT } else { &PEER_MAC };
             ll_wrap(c, &src, &dst, 58, 255, &pkt::neighbor_solicit(&src, &dst, t, Some(sll)))
@@ -346,7 +394,7 @@ fn prefix_frame(c: &Cell, w: &World) -> Option<Vec<u8>> {
             Med::Lowpan => LlDst::PanOwnExtOwn,
         },
         src: Src::OnLink,
-        port_match: true,
+        port: Port::Match,
         ..*c
     };
     match c.prefix {
@@ -389,16 +437,20 @@ struct Exec {
 }
 
 fn execute(c: &Cell) -> Exec {
-    execute_opt(c, false)
+    execute_opt(c, false, false)
+}
+/// with the additional set-up stability proof (re-executions, replay, samples)
+fn execute_strict(c: &Cell) -> Exec {
+    execute_opt(c, false, true)
 }
 
-fn execute_opt(c: &Cell, want_state_fp: bool) -> Exec {
-    let mut w = World::new(c.med, c.ver, c.sock, c.joined, c.primed);
+fn execute_opt(c: &Cell, want_state_fp: bool, strict: bool) -> Exec {
+    let mut w = World::new(c.med, c.ver, c.sock, c.joined, c.primed, strict);
     let mut ack = DEFAULT_ACK;
     let mut prefix_hex = None;
     let mut prefix_outs = vec![];
     if let Some(f) = &c.auto_first {
-        let fc = Cell { kind: f.kind, ll: f.ll, dst: f.dst, src: f.src, port_match: f.port_match, auto_first: None, ..*c };
+        let fc = Cell { kind: f.kind, ll: f.ll, dst: f.dst, src: f.src, port: f.port, auto_first: None, ..*c };
         let pf = build_frame(&fc, &w, ack);
         prefix_hex = Some(pkt::hex(&pf));
         prefix_outs = w.apply(&pf);
@@ -426,7 +478,7 @@ fn execute_opt(c: &Cell, want_state_fp: bool) -> Exec {
         }
         if c.prefix == Prefix::Handshake {
             // third step of the handshake (depth 3): ACK of the stack's SYN-ACK
-            let base = Cell { kind: Kind::TcpAck, dst: Dst::Own, src: Src::OnLink, port_match: true, ..*c };
+            let base = Cell { kind: Kind::TcpAck, dst: Dst::Own, src: Src::OnLink, port: Port::Match, ..*c };
             let base = Cell {
                 ll: match c.med {
                     Med::Ip => LlDst::NoLl,
@@ -524,11 +576,14 @@ fn judge(c: &Cell, e: &Exec) -> Verdict {
     let ll_trigger = match c.ll {
         LlDst::OtherUni => Some("other-station"),
         LlDst::PanOtherExtOwn | LlDst::PanOtherShortBcast => Some("other-pan"),
+        // no destination addressing + foreign source PAN: addressed to the coordinator of that
+        // other PAN (IEEE 802.15.4)
+        LlDst::NoDstSrcPanOther => Some("no-dst-addressing-other-pan"),
         _ => None,
     };
     let ip_foreign = match c.kind {
         Kind::Arp => matches!(c.dst, Dst::OtherOnLink | Dst::OffLink),
-        _ => matches!(c.dst, Dst::OtherOnLink | Dst::OffLink | Dst::GroupU) || (c.dst == Dst::GroupG && !c.joined),
+        _ => c.dst.is_always_foreign() || (c.dst == Dst::GroupG && !c.joined),
     };
     let trigger = ll_trigger.or(if ip_foreign { Some("foreign-ip") } else { None });
     if let Some(t) = trigger {
@@ -538,6 +593,17 @@ fn judge(c: &Cell, e: &Exec) -> Verdict {
         }
         for r in &replies {
             v.viols.push((R1, format!("C11/R1/{}/{}/{}/{}-answered-{}", k, ver, d, t, r), format!("not addressed to the interface ({}) but a frame ({}) was emitted", t, r)));
+        }
+    }
+    if c.ll == LlDst::NoDstSrcPanOwn {
+        // lenient: no destination addressing with OUR PAN as source PAN means "for the coordinator
+        // of our PAN"; whether the interface is that coordinator is not modelled: recorded only
+        if !v.delivered.is_empty() {
+            v.notes.push("lowpan_no_dst_addressing_own_pan_delivered");
+        } else if !replies.is_empty() {
+            v.notes.push("lowpan_no_dst_addressing_own_pan_answered");
+        } else {
+            v.notes.push("lowpan_no_dst_addressing_own_pan_silent");
         }
     }
     if c.ll == LlDst::PanOwnExtOther {
@@ -570,13 +636,14 @@ fn judge(c: &Cell, e: &Exec) -> Verdict {
     for s in &v.delivered {
         let mismatch: Option<&str> = match *s {
             "tcp" => {
-                let dport = if c.port_match { TCP_PORT } else { TCP_PORT + 1 };
+                let dport = tcp_dst_port(c);
+                let sport = src_port(c);
                 match &e.pre_tcp {
                     _ if !c.kind.is_tcp() => Some("protocol"),
                     None => Some("protocol"),
                     Some(t) => {
                         if let (Some(l), Some(r)) = (&t.local, &t.remote) {
-                            if l.1 != dport || r.1 != PEER_PORT {
+                            if l.1 != dport || r.1 != sport {
                                 Some("port")
                             } else if l.0 != dst || r.0 != src {
                                 Some("addr")
@@ -601,7 +668,7 @@ fn judge(c: &Cell, e: &Exec) -> Verdict {
                 if !matches!(c.kind, Kind::Udp) {
                     // (a DNS response goes to the query's ephemeral port, never UDP_PORT)
                     Some("protocol")
-                } else if !c.port_match {
+                } else if !c.pm() {
                     Some("port")
                 } else if bound && dst != a.my && !c.dst.is_bcast_mcast() {
                     Some("addr")
@@ -609,10 +676,13 @@ fn judge(c: &Cell, e: &Exec) -> Verdict {
                     None
                 }
             }
+            // a UDP socket that was never bound, or was closed again, has no endpoint: nothing
+            // matches it
+            "udp-unbound" | "udp-closed" => Some("no-endpoint"),
             "icmp-ident" => {
                 if c.kind != Kind::Echo {
                     Some("protocol")
-                } else if !c.port_match {
+                } else if !c.pm() {
                     Some("ident")
                 } else {
                     None
@@ -621,7 +691,7 @@ fn judge(c: &Cell, e: &Exec) -> Verdict {
             "icmp-udp" => {
                 if c.kind != Kind::IcmpErr {
                     Some("protocol")
-                } else if !c.port_match {
+                } else if !c.pm() {
                     Some("port")
                 } else if bound && dst != a.my {
                     Some("addr")
@@ -632,7 +702,7 @@ fn judge(c: &Cell, e: &Exec) -> Verdict {
             "dns" => {
                 if c.kind != Kind::DnsResp {
                     Some("protocol")
-                } else if !c.port_match {
+                } else if !c.pm() {
                     Some("port")
                 } else {
                     None
@@ -753,8 +823,9 @@ fn run_cell(idx: usize, c: &Cell) -> CellRes {
             // determinism / replayability proof on every 16th cell and on every violating cell
             let mut validated = false;
             if idx % 16 == 0 || !verdict.viols.is_empty() {
-                match catch_unwind(AssertUnwindSafe(|| execute(c))) {
-                    Ok(e2) if obs_fingerprint(&e2) == fp => validated = true,
+                match catch_unwind(AssertUnwindSafe(|| execute_strict(c))) {
+                    Ok(e2) if obs_fingerprint(&e2) == fp && e2.errors.is_empty() => validated = true,
+                    Ok(e2) if !e2.errors.is_empty() => errors.extend(e2.errors.iter().cloned()),
                     _ => errors.push(format!("NONDETERMINISM: re-execution differs | cell: {}", c.describe())),
                 }
             }
@@ -799,16 +870,16 @@ fn sample_wants() -> Vec<(&'static str, Pred)> {
     vec![
         ("ARP request for our address in a broadcast frame -> ARP reply", |c, v| c.kind == Kind::Arp && c.dst == Dst::Own && c.ll == LlDst::Bcast && c.src == Src::OnLink && v.outcome.contains("arp-reply")),
         ("ARP request for our address in a frame for another station -> silent (R1)", |c, _| c.kind == Kind::Arp && c.dst == Dst::Own && c.ll == LlDst::OtherUni && c.src == Src::OnLink),
-        ("NS for our address to the solicited-node group over 802.15.4 -> NA", |c, v| c.med == Med::Lowpan && c.kind == Kind::Ns && c.dst == Dst::SolNode && c.port_match && c.src == Src::OnLink && v.outcome.contains("ndisc-na")),
-        ("UDP to our port over 802.15.4, other PAN (R1)", |c, _| c.med == Med::Lowpan && c.kind == Kind::Udp && c.dst == Dst::Own && c.ll == LlDst::PanOtherExtOwn && c.port_match && c.sock == Sock::Std && c.src == Src::OnLink),
-        ("UDP to our port, own address -> delivered", |c, v| c.med == Med::Eth && c.kind == Kind::Udp && c.dst == Dst::Own && c.ll == LlDst::Own && c.port_match && c.sock == Sock::Std && c.src == Src::OnLink && !v.delivered.is_empty()),
-        ("UDP to a foreign on-link address arriving at our MAC (R1)", |c, _| c.med == Med::Eth && c.kind == Kind::Udp && c.dst == Dst::OtherOnLink && c.ll == LlDst::Own && c.port_match && c.sock == Sock::Std && c.src == Src::OnLink),
-        ("UDP to the second own address, sockets bound to the first (R2)", |c, _| c.kind == Kind::Udp && c.dst == Dst::Own2 && c.port_match && c.sock == Sock::Bound && c.src == Src::OnLink),
-        ("IPv4 UDP to the subnet broadcast, closed port (R3: must stay silent)", |c, _| c.ver == Ver::V4 && c.kind == Kind::Udp && c.dst == Dst::SubnetBcast && !c.port_match && c.sock == Sock::Std && c.src == Src::OnLink),
-        ("IPv6 UDP to all-nodes, closed port (R3)", |c, _| c.ver == Ver::V6 && c.kind == Kind::Udp && c.dst == Dst::AllNodes && !c.port_match && c.sock == Sock::Std && c.src == Src::OnLink),
+        ("NS for our address to the solicited-node group over 802.15.4 -> NA", |c, v| c.med == Med::Lowpan && c.kind == Kind::Ns && c.dst == Dst::SolNode && c.pm() && c.src == Src::OnLink && v.outcome.contains("ndisc-na")),
+        ("UDP to our port over 802.15.4, other PAN (R1)", |c, _| c.med == Med::Lowpan && c.kind == Kind::Udp && c.dst == Dst::Own && c.ll == LlDst::PanOtherExtOwn && c.pm() && c.sock == Sock::Std && c.src == Src::OnLink),
+        ("UDP to our port, own address -> delivered", |c, v| c.med == Med::Eth && c.kind == Kind::Udp && c.dst == Dst::Own && c.ll == LlDst::Own && c.pm() && c.sock == Sock::Std && c.src == Src::OnLink && !v.delivered.is_empty()),
+        ("UDP to a foreign on-link address arriving at our MAC (R1)", |c, _| c.med == Med::Eth && c.kind == Kind::Udp && c.dst == Dst::OtherOnLink && c.ll == LlDst::Own && c.pm() && c.sock == Sock::Std && c.src == Src::OnLink),
+        ("UDP to the second own address, sockets bound to the first (R2)", |c, _| c.kind == Kind::Udp && c.dst == Dst::Own2 && c.pm() && c.sock == Sock::Bound && c.src == Src::OnLink),
+        ("IPv4 UDP to the subnet broadcast, closed port (R3: must stay silent)", |c, _| c.ver == Ver::V4 && c.kind == Kind::Udp && c.dst == Dst::SubnetBcast && !c.pm() && c.sock == Sock::Std && c.src == Src::OnLink),
+        ("IPv6 UDP to all-nodes, closed port (R3)", |c, _| c.ver == Ver::V6 && c.kind == Kind::Udp && c.dst == Dst::AllNodes && !c.pm() && c.sock == Sock::Std && c.src == Src::OnLink),
         ("echo request to all-nodes -> echo reply (allowed)", |c, v| c.kind == Kind::Echo && c.dst == Dst::AllNodes && c.src == Src::OnLink && v.outcome.contains("echo-reply")),
-        ("TCP RST for a closed port (R4: no answer)", |c, _| c.kind == Kind::TcpRst && c.dst == Dst::Own && !c.port_match && c.sock == Sock::Std && c.src == Src::OnLink),
-        ("data segment on the connection established by the depth-3 prefix -> delivered", |c, v| c.prefix == Prefix::Handshake && c.kind == Kind::TcpData && c.dst == Dst::Own && c.port_match && c.src == Src::OnLink && v.delivered.contains(&"tcp")),
+        ("TCP RST for a closed port (R4: no answer)", |c, _| c.kind == Kind::TcpRst && c.dst == Dst::Own && !c.pm() && c.sock == Sock::Std && c.src == Src::OnLink),
+        ("data segment on the connection established by the depth-3 prefix -> delivered", |c, v| c.prefix == Prefix::Handshake && c.kind == Kind::TcpData && c.dst == Dst::Own && c.pm() && c.src == Src::OnLink && v.delivered.contains(&"tcp")),
     ]
 }
 
@@ -918,14 +989,14 @@ fn auto_depth2(rep: &mut Report, agg: &mut Agg) -> Value {
     let mut info = vec![];
     for &med in &[Med::Ip, Med::Eth, Med::Lowpan] {
         for &ver in Ver::ALL {
-            let joined = med != Med::Lowpan;
+            let joined = true;
             let mut base: Vec<Cell> = vec![];
             for &kind in Kind::ALL {
                 for &ll in ll_alphabet(med) {
                     for &dst in Dst::ALL {
                         for &src in Src::ALL {
-                            for &port_match in &[true, false] {
-                                let c = Cell { med, ver, kind, ll, dst, src, port_match, sock: Sock::Std, joined, primed: true, prefix: Prefix::NoPrefix, auto_first: None };
+                            for &port in &[Port::Match, Port::NoMatch, Port::DstZero] {
+                                let c = Cell { med, ver, kind, ll, dst, src, port, sock: Sock::Std, joined, primed: true, prefix: Prefix::NoPrefix, auto_first: None };
                                 if valid(&c) {
                                     base.push(c);
                                 }
@@ -937,9 +1008,9 @@ fn auto_depth2(rep: &mut Report, agg: &mut Agg) -> Value {
             if base.is_empty() {
                 continue;
             }
-            let fps: Vec<Option<u128>> = base.par_iter().map(|c| catch_unwind(AssertUnwindSafe(|| execute_opt(c, true).state_fp)).ok()).collect();
+            let fps: Vec<Option<u128>> = base.par_iter().map(|c| catch_unwind(AssertUnwindSafe(|| execute_opt(c, true, false).state_fp)).ok()).collect();
             let initial = catch_unwind(AssertUnwindSafe(|| {
-                let w = World::new(med, ver, Sock::Std, joined, true);
+                let w = World::new(med, ver, Sock::Std, joined, true, true);
                 w.state_fp()
             }))
             .ok();
@@ -956,7 +1027,7 @@ fn auto_depth2(rep: &mut Report, agg: &mut Agg) -> Value {
             let mut cells2 = Vec::with_capacity(firsts.len() * base.len());
             for &fi in &firsts {
                 let f = &base[fi];
-                let first = First { kind: f.kind, ll: f.ll, dst: f.dst, src: f.src, port_match: f.port_match };
+                let first = First { kind: f.kind, ll: f.ll, dst: f.dst, src: f.src, port: f.port };
                 for c in &base {
                     cells2.push(Cell { auto_first: Some(first), ..*c });
                 }
@@ -966,7 +1037,7 @@ fn auto_depth2(rep: &mut Report, agg: &mut Agg) -> Value {
                 "first_frame_candidates": base.len(),
                 "distinct_states_after_first_frame_other_than_initial": firsts.len(),
                 "depth2_cells": cells2.len(),
-                "representative_first_frames": firsts.iter().take(200).map(|&i| { let f = &base[i]; format!("{} ll={} dst={} src={} match={}", f.kind.name(), f.ll.name(), f.dst.name(), f.src.name(), f.port_match) }).collect::<Vec<_>>(),
+                "representative_first_frames": firsts.iter().take(200).map(|&i| { let f = &base[i]; format!("{} ll={} dst={} src={} port={}", f.kind.name(), f.ll.name(), f.dst.name(), f.src.name(), f.port.name()) }).collect::<Vec<_>>(),
             }));
             agg.run_batch(rep, &cells2);
         }
@@ -980,7 +1051,7 @@ pub fn run(tier: Tier) -> i32 {
     rep.assumptions.push("emitted Ethernet/IP frames are classified by an own parser (addr/pkt.rs, wirecheck.rs); for IEEE 802.15.4 the MAC header is parsed by own code and smoltcp::wire is used ONLY to undo IPHC/UDP-NHC compression, the reconstructed IPv6 packet is classified by the own parser".into());
     rep.assumptions.push("delivery to a socket = the `{:?}` image of that TCP/UDP/ICMP/DNS socket differs between just before the frame and just after `poll_ingress_single` (positive controls prove every socket type shows deliveries); raw sockets are not judged".into());
     rep.assumptions.push("lenient readings: see the comment block at the top of src/addr.rs (802.15.4 other station in own PAN, multicast MAC, unspecified/loopback destination under R1, bound UDP socket + broadcast, R3 at IP layer only, loopback/own source not 'non-unicast')".into());
-    rep.assumptions.push(format!("interface: one IP version per cell with {} own address(es) (IFACE_MAX_ADDR_COUNT={}), default route via an on-link gateway, PAN id 0xbeef on 802.15.4; group G can not be joined on 802.15.4 (join + poll panics in the stack, see report)", if two_addrs() { 2 } else { 1 }, smoltcp::config::IFACE_MAX_ADDR_COUNT));
+    rep.assumptions.push(format!("interface: one IP version per cell with {} own address(es) (IFACE_MAX_ADDR_COUNT={}), default route via an on-link gateway, PAN id 0xbeef on 802.15.4", if two_addrs() { 2 } else { 1 }, smoltcp::config::IFACE_MAX_ADDR_COUNT));
 
     let p = plan(tier);
     let cells = enumerate(&p);
@@ -996,18 +1067,23 @@ pub fn run(tier: Tier) -> i32 {
             "link_dst_ieee802154": ll_alphabet(Med::Lowpan).iter().map(|x| x.name()).collect::<Vec<_>>(),
             "ip_dst_class": Dst::ALL.iter().map(|x| x.name()).collect::<Vec<_>>(),
             "ip_src_class": Src::ALL.iter().map(|x| x.name()).collect::<Vec<_>>(),
-            "port_relation": ["matching", "not-matching"],
+            "port_relation": p.ports.iter().map(|x| x.name()).collect::<Vec<_>>(),
+            "sockets_in_every_non_empty_configuration": ["tcp listener :80", "udp bound :7000", "udp never bound", "udp bound :7002 then closed", "icmp Ident(0x1234)", "icmp Udp(:7000)"],
             "socket_configuration_depth1": p.socks.iter().map(|x| x.name()).collect::<Vec<_>>(),
             "group_g_joined_depth1": p.joined,
+            "group_g_not_joined_only_for_dst_group_g": p.unjoined_only_for_group_g,
+            "tcp_dst_port_0_only_with_syn": p.tcp_port0_only_syn,
             "neighbor_cache": ["primed(peer+gateway)", "cold (ethernet/802.15.4 only)"],
             "socket_configuration_on_cold_base": p.cold_socks.iter().map(|x| x.name()).collect::<Vec<_>>(),
             "depth2_first_frames": p.prefixes.iter().map(|x| x.name()).collect::<Vec<_>>(),
             "socket_configuration_depth2": p.d2_socks.iter().map(|x| x.name()).collect::<Vec<_>>(),
             "group_g_joined_depth2": p.d2_joined,
+            "group_g_not_joined_at_depth2_only_for_dst_group_g": true,
+            "generic_depth2_ports": ["matching", "not-matching", "dst-port-0"],
             "generic_depth2": p.auto_d2,
         }),
     );
-    rep.cov("rule", json!("full product of the dimensions above, filtered by `valid()` (6LoWPAN => IPv6; ARP => Ethernet/IPv4, target classes own/own2/other/offlink/bcast/unspec; NS => IPv6; DNS response => std+dns sockets; address classes that do not exist for the IP version dropped; group G never joined on 802.15.4; cold neighbor cache only where a cache exists and not with the DNS socket; first frame 'teach' on the cold base, the other first frames on the primed base). A cell = one frame injected into a fresh interface (after the optional first frame(s)). Thorough tier additionally: generic depth 2 (see generic_depth2). states = distinct (kind, version, dst class, src class, outcome) tuples; transitions = frames injected; validated = cells re-executed on a second fresh interface with byte-identical output frames and socket images (every 16th cell and every violating cell)."));
+    rep.cov("rule", json!("full product of the dimensions above, filtered by `valid()` (6LoWPAN => IPv6; ARP => Ethernet/IPv4, target classes own/own2/other/offlink/bcast/unspec; NS => IPv6; DNS response => std+dns sockets; address classes that do not exist for the IP version dropped; port 0 only for UDP/TCP; cold neighbor cache only where a cache exists and not with the DNS socket; first frame 'teach' on the cold base, the other first frames on the primed base). A cell = one frame injected into a fresh interface (after the optional first frame(s)). Thorough tier additionally: generic depth 2 (see generic_depth2). states = distinct (kind, version, dst class, src class, outcome) tuples; transitions = frames injected; validated = cells re-executed on a second fresh interface with byte-identical output frames and socket images (every 16th cell and every violating cell)."));
 
     let mut agg = Agg::new();
     agg.run_batch(&mut rep, &cells);
@@ -1087,7 +1163,7 @@ pub fn replay(art: &Value) -> i32 {
         eprintln!("MACHINERY ERROR: cell is not part of the table in this build");
         return 2;
     }
-    let e = match catch_unwind(AssertUnwindSafe(|| execute(&c))) {
+    let e = match catch_unwind(AssertUnwindSafe(|| execute_strict(&c))) {
         Ok(e) => e,
         Err(p) => {
             println!("panic: {} at {}", panic_msg(p), last_panic_loc());
